@@ -22,6 +22,7 @@ EXPLANATION = (
     "list is accepted + rejected, i.e. one per proposed context (C10). Not decided: validator "
     "semantics on arbitrary strings."
     " Fourth session: (ac-results) also C10's one-result evaluation of the largest request PS3.8 allows."
+    ' Fifth round: (ac-partition) by evaluation, inline or in a helper; the context-list setters are evaluated with an instance of a *subclass* of PresentationContext, which must be validated like the class itself.'
 )
 
 
